@@ -172,6 +172,13 @@ func (s *c10Resp) serve(c net.Conn) {
 	}
 }
 
+// Count is the number of publications not yet taken.
+func (s *c10Resp) Count() int {
+	s.mu.Lock()
+	defer s.mu.Unlock()
+	return len(s.pubs)
+}
+
 // Take returns and forgets what was published so far.
 func (s *c10Resp) Take() []c10Pub {
 	s.mu.Lock()
@@ -678,7 +685,12 @@ func (w *c10World) checkAnnouncement(det *c10Detector, c c07Case, f c07Fam, d *D
 func (w *c10World) checkClear(det *c10Detector) (*c10Viol, error) {
 	w.srv.Take()
 	w.e.rm.Cleanup()
-	pubs := w.srv.Take()
+	return w.judgeClear(det, w.srv.Take())
+}
+
+// judgeClear: what Cleanup() published must be exactly one request on which the detector empties
+// its session table.
+func (w *c10World) judgeClear(det *c10Detector, pubs []c10Pub) (*c10Viol, error) {
 	if len(pubs) != 1 {
 		return c10V("clear:not-published", "Cleanup() published %d messages", len(pubs)), nil
 	}
